@@ -104,7 +104,7 @@ def gen_case(rng, tier):
         options["strict_syntax_with_corners"] = True
         if rng.random() < 0.5 and "shape_map_raw" in target:
             target["all_classes_mode"] = True
-    ns = gen.gen_namespaces(rng, shape_prefix_pressure=0.2)
+    ns = gen.gen_namespaces(rng, shape_prefix_pressure=0.3)
     all_taken = False
     if rng.random() < 0.06:
         for i, p in enumerate(["", "weso-s", "shapes", "w-shapes"]):
